@@ -1,4 +1,5 @@
 import RV.Json
+import RV.Drv.Fault
 import RV.Drv.Traffic
 import RV.Model.TRSM
 import RV.Oracle.TRSM
@@ -36,6 +37,7 @@ def handle : Handler := fun op inp impl => do
         pure [("C18.tr_finalizer_guard", finalizerGuard w t' n')])
     return { model := model, holds := holds,
              tags := [s!"phase:{phaseStr w.tr.phase}", if w.tr.deleting then "deleting" else "live", if r.finalised then "finalised" else "notfinalised"] }
+  | "fault" => RV.Drv.Fault.handleFault ["C06", "C09", "C18"] impl
   | _ => .error s!"trsm: unknown op {op}"
 
 end RV.Drv.TRSM
